@@ -997,6 +997,49 @@ ASTNode *PrimaryExpressionParser::parseLambda() {
     return result;
 }
 
+namespace {
+// Position of the ':' that separates the expression of an interpolation
+// segment from its format spec ("{v:05d}"), or npos when there is none.
+// Not a separator: a ':' inside ( ) [ ] { } or a character literal, and the
+// ':' of a conditional expression ("{c ? a : b}", "{c ? a : b:5d}") - i.e. a
+// ':' that closes a '?' seen at bracket depth 0. A '?' that is directly
+// followed by ':' or by the end of the segment is the postfix error
+// propagation operator ("{r?:5d}") and does not open a conditional.
+size_t findInterpolationFormatColon(const std::string &expr) {
+    int depth = 0;
+    int pending_conditionals = 0;
+    for (size_t i = 0; i < expr.length(); i++) {
+        char c = expr[i];
+        if (c == '\'') {
+            // character literal: skip to the closing quote
+            i++;
+            while (i < expr.length() && expr[i] != '\'') {
+                if (expr[i] == '\\') {
+                    i++;
+                }
+                i++;
+            }
+        } else if (c == '(' || c == '[' || c == '{') {
+            depth++;
+        } else if (c == ')' || c == ']' || c == '}') {
+            depth--;
+        } else if (depth == 0 && c == '?') {
+            size_t next = expr.find_first_not_of(" \t", i + 1);
+            if (next != std::string::npos && expr[next] != ':') {
+                pending_conditionals++;
+            }
+        } else if (depth == 0 && c == ':') {
+            if (pending_conditionals > 0) {
+                pending_conditionals--;
+            } else {
+                return i;
+            }
+        }
+    }
+    return std::string::npos;
+}
+} // namespace
+
 ASTNode *
 PrimaryExpressionParser::parseInterpolatedString(const std::string &str) {
     ASTNode *node = new ASTNode(ASTNodeType::AST_INTERPOLATED_STRING);
@@ -1059,7 +1102,7 @@ PrimaryExpressionParser::parseInterpolatedString(const std::string &str) {
 
             // フォーマット指定子を分離
             std::string format_spec;
-            size_t colon_pos = expr_str.find(':');
+            size_t colon_pos = findInterpolationFormatColon(expr_str);
             if (colon_pos != std::string::npos) {
                 format_spec = expr_str.substr(colon_pos + 1);
                 expr_str = expr_str.substr(0, colon_pos);
